@@ -88,20 +88,30 @@ static void run_case(long idx)
             for (int dm = 0; dm < DM_NB; dm++) {
                 if (dm == DM_REFPREFIX && formatted && dct != ZSTD_dct_rawContent) { /* refPrefix on the decoder side takes raw content: use full-dict typed prefix */ }
                 if (accidental && dm == DM_USINGDICT) continue;
-                ZSTD_DCtx* d = ZSTD_createDCtx(); size_t ds; ZSTD_DDict* extra[5] = { 0, 0, 0, 0, 0 };
+                ZSTD_DCtx* d = ZSTD_createDCtx(); size_t ds; enum { MAXX = 140 }; ZSTD_DDict* extra[MAXX]; uint8_t* extraBuf[MAXX]; int nExtra = 0; memset(extra, 0, sizeof extra); memset(extraBuf, 0, sizeof extraBuf);
                 switch (dm) {
                 case DM_USINGDICT: ds = ZSTD_decompress_usingDict(d, out, n, dst, cs, gd.p, dl); break;
                 case DM_DDICT: ds = ZSTD_decompress_usingDDict(d, out, n, dst, cs, dd); break;
                 case DM_LOAD: { size_t e = ZSTD_DCtx_loadDictionary_advanced(d, gd.p, dl, ZSTD_dlm_byRef, dct); ds = ZSTD_isError(e) ? e : ZSTD_decompressDCtx(d, out, n, dst, cs); break; }
                 case DM_REFDDICT: { ZSTD_DCtx_refDDict(d, dd); ZSTD_inBuffer in = { dst, cs, 0 }; ZSTD_outBuffer o = { out, n, 0 }; size_t rr = 1; int g = 0; while (!ZSTD_isError(rr) && rr != 0 && ++g < 100000) { size_t const ib = in.pos, obp = o.pos; rr = ZSTD_decompressStream(d, &o, &in); if (!ZSTD_isError(rr) && in.pos == ib && o.pos == obp) break; } ds = ZSTD_isError(rr) ? rr : (rr == 0 ? o.pos : (size_t)-ZSTD_error_srcSize_wrong); break; }
-                case DM_MULTI: { ZSTD_DCtx_setParameter(d, ZSTD_d_refMultipleDDicts, 1); for (int q = 0; q < 5 && dl >= 8 && formatted; q++) { uint8_t* cp2 = (uint8_t*)malloc(dl); memcpy(cp2, gd.p, dl); uint32_t nid = idD + 1 + (uint32_t)q * 7; memcpy(cp2 + 4, &nid, 4); extra[q] = ZSTD_createDDict(cp2, dl); free(cp2); if (extra[q]) ZSTD_DCtx_refDDict(d, extra[q]); } ZSTD_DCtx_refDDict(d, dd); ds = ZSTD_decompressDCtx(d, out, n, dst, cs); break; }
+                case DM_MULTI: {   /* table of referenced DDicts (ZSTD_d_refMultipleDDicts): other dictionaries with other IDs around the right one; table sizes on both sides of the
+                                    * hash set's growth steps (17, 33, 65, 129 entries), the right dictionary referenced first / somewhere in between / last */
+                    ZSTD_DCtx_setParameter(d, ZSTD_d_refMultipleDDicts, 1);
+                    if (dl >= 8 && formatted) { static const int ks[] = { 0, 1, 5, 15, 16, 17, 20, 31, 32, 33, 36, 64, 65, 70, 128, 129, 132 }; nExtra = vr_chance(&r, 1, 3) ? ks[vr_u(&r, 17)] : ks[vr_u(&r, 4)]; if (dl > 20000 && nExtra > 36) nExtra = 36; }
+                    int const at = (int)vr_u(&r, (uint32_t)nExtra + 1);
+                    for (int q = 0, slot = 0; q <= nExtra; q++) {
+                        if (q == at) { ZSTD_DCtx_refDDict(d, dd); continue; }
+                        uint8_t* cp2 = (uint8_t*)malloc(dl); memcpy(cp2, gd.p, dl); uint32_t nid = idD + 1 + (uint32_t)slot * 7 + (uint32_t)vr_u(&r, 5); if (nid == idD || nid == 0) nid = idD + 100000u + (uint32_t)slot; memcpy(cp2 + 4, &nid, 4);
+                        extraBuf[slot] = cp2; extra[slot] = ZSTD_createDDict_byReference(cp2, dl); if (extra[slot]) ZSTD_DCtx_refDDict(d, extra[slot]); slot++; }
+                    v_statmax("multi_ddict_table_max", nExtra + 1); v_cell("multi_ddict_table", "%d", nExtra + 1);
+                    ds = ZSTD_decompressDCtx(d, out, n, dst, cs); break; }
                 default: { size_t e = ZSTD_DCtx_refPrefix_advanced(d, gd.p, dl, dct); ds = ZSTD_isError(e) ? e : ZSTD_decompressDCtx(d, out, n, dst, cs); break; }
                 }
                 if (dm == DM_MULTI && fid == 0 && formatted) { /* no ID in the frame: the table cannot select a dictionary; not a required success */ }
                 else if (ZSTD_isError(ds) || ds != n || memcmp(out, x, n)) v_viol("roundtrip:decode-with-the-same-dictionary-fails", "%s dmode=%s: %s", desc, dm_name[dm], ZSTD_isError(ds) ? ZSTD_getErrorName(ds) : "mismatch");
                 v_stat("roundtrips", 1); v_cell("modes", "%s|%s", cm_name[cm], dm_name[dm]);
-                for (int q = 0; q < 5; q++) ZSTD_freeDDict(extra[q]);
-                ZSTD_freeDCtx(d);
+                ZSTD_freeDCtx(d);       /* the table of referenced DDicts lives as long as the DCtx */
+                for (int q = 0; q < MAXX; q++) { ZSTD_freeDDict(extra[q]); free(extraBuf[q]); }
             }
             /* reference decoder with the dictionary parsed by R itself */
             if (rd) { refdec_info_t I; memset(&I, 0, sizeof I); I.keep_blocks = 1; if (!refdec_decode(out, n, dst, cs, rd, &I, 0) || I.out_size != n || memcmp(out, x, n)) v_viol("roundtrip:R-with-dictionary-rejects-or-differs", "%s: %s", desc, I.err ? I.err : "mismatch");
